@@ -410,11 +410,7 @@ func (s *c02Setup) monitor(n *dsNode) (key, what string) {
 func (s *c02Setup) toCase(tr []dsEv) c02Case {
 	out := c02Case{Cfg: s.c, Desc: s.e.describe(tr)}
 	for _, ev := range tr {
-		re := dsRepEv{K: ev.K, N: ev.N}
-		if ev.K == dsDeliver {
-			re.Key = s.w.msg(int(ev.M)).Key
-		}
-		out.Trace = append(out.Trace, re)
+		out.Trace = append(out.Trace, dsRepOf(s.w, ev))
 	}
 	return out
 }
